@@ -13,12 +13,12 @@ package c10
 
 import (
 	"bytes"
-	"io"
-	"log"
-	"os"
 	"encoding/json"
 	"fmt"
 	"hash/fnv"
+	"io"
+	"log"
+	"os"
 	"sort"
 	"strings"
 	"sync"
@@ -136,17 +136,13 @@ func offTag(s *Scenario) string {
 	if s.Kind == "shape" && len(s.Hist) == 1 {
 		return ":" + s.Hist[0].Op
 	}
-	t := ""
 	if s.F.MvClose {
-		t += ":moveto-close"
+		return ":moveto-close"
 	}
-	for _, c := range s.Hist {
-		if c.Op == "Append" || c.Op == "Join" {
-			t += ":append-join"
-			break
-		}
+	if hasOp(s.Hist, "Append", "Join") {
+		return ":append-join"
 	}
-	return t
+	return ""
 }
 
 func judgeCfg(nchunks int) string {
@@ -343,19 +339,19 @@ func bitsKey(emb string, d []float64) string {
 
 // run holds the state of one check run.
 type run struct {
-	c        *core.Ctx
-	newPath  map[string]bool
-	mu       sync.Mutex
-	events   []Event
-	evScen   []Scenario // scenario of event i (first one that produced it)
-	evKey    map[string]int
-	derived  sync.Map // data already put through the derived operations
-	seenHist sync.Map
+	c                                  *core.Ctx
+	newPath                            map[string]bool
+	mu                                 sync.Mutex
+	events                             []Event
+	evScen                             []Scenario // scenario of event i (first one that produced it)
+	evKey                              map[string]int
+	derived                            sync.Map // data already put through the derived operations
+	seenHist                           sync.Map
 	nHist, nExec, nDerived, nontrivial int64
-	feat     map[string]int64
-	triage   map[string]int64
-	offDetail map[int]string
-	info     map[string]int64
+	feat                               map[string]int64
+	triage                             map[string]int64
+	offDetail                          map[int]string
+	info                               map[string]int64
 }
 
 // report hands mismatches to the verdict path; with VERIF_C10_TRIAGE set (development) they are only tallied.
@@ -450,8 +446,8 @@ func (r *run) handle(p []byte, extra int) {
 		stream, off, data, ms := Exec(&s, r.newPath, false, nil)
 		atomic.AddInt64(&r.nExec, 1)
 		// derived operations: once per distinct Data(); quick tier: short histories and a quarter of the others under
-		// the identity, an eighth of those also under the first extra embedding
-		want := i == 0 && (r.c.Thorough() || len(l.Hist) <= 2 || h%4 == 0) || i == 1 && (r.c.Thorough() || h%32 == 0)
+		// the identity, an eighth of those also under the first extra embedding; thorough: half / a quarter
+		want := i == 0 && (len(l.Hist) <= 2 || h%4 == 0 || r.c.Thorough() && (len(l.Hist) <= 3 || h%2 == 0)) || i == 1 && (h%32 == 0 || r.c.Thorough() && h%4 == 0)
 		if stream != nil && want {
 			if _, dup := r.derived.LoadOrStore(bitsKey(en, data), true); !dup {
 				e, _ := EmbByName(en)
@@ -550,16 +546,12 @@ func (d Driver) Run(c *core.Ctx) error {
 
 	// 2. spec -> code
 	extra := c.Pick(1, 3)
-	if os.Getenv("VERIF_C10_ONLY") == "" {
 	r.gen(tlc.Opts{Module: "Builder", Config: genCfg(c.Pick(4, 5), 1, "lines", false)}, extra)
 	r.gen(tlc.Opts{Module: "Builder", Config: genCfg(c.Pick(3, 4), 1, "curves", false)}, extra)
-	r.gen(tlc.Opts{Module: "Builder", Config: genCfg(c.Pick(3, 4), 1, "arcs", false)}, extra)
-	}
+	r.gen(tlc.Opts{Module: "Builder", Config: genCfg(3, 1, "arcs", false)}, extra) // depth 4 = 555 000 histories: too many
 	r.gen(tlc.Opts{Module: "Builder", Config: genCfg(c.Pick(3, 4), 1, "joins", false)}, extra)
 	depth := c.Pick(7, 8)
-	if os.Getenv("VERIF_C10_ONLY") == "" {
-	r.gen(tlc.Opts{Module: "Builder", Config: genCfg(depth, 2, "mix", false), Simulate: fmt.Sprintf("num=%d", c.Pick(20, 1500)), Depth: depth + 1, Seed: c.Seed, Workers: 8}, extra)
-	}
+	r.gen(tlc.Opts{Module: "Builder", Config: genCfg(depth, 2, "mix", false), Simulate: fmt.Sprintf("num=%d", c.Pick(20, 300)), Depth: depth + 1, Seed: c.Seed, Workers: 8}, extra)
 	r.shapes()
 	c.Count(r.nExec, r.nontrivial, 0)
 
